@@ -34,13 +34,13 @@ func (ex *Exec) exec(fr *frame, in ssa.Instruction) {
 		s := ex.get(fr, in.X).(Struct)
 		ex.set(fr, in, copyVal(s[in.Field]))
 	case *ssa.IndexAddr:
-		ex.set(fr, in, ex.indexAddr(in.X.Type(), ex.get(fr, in.X), ex.get(fr, in.Index).(*term.T)))
+		ex.set(fr, in, ex.indexAddr(in.X.Type(), ex.get(fr, in.X), ex.toInt64T(ex.get(fr, in.Index).(*term.T), in.Index.Type())))
 	case *ssa.Index:
-		ex.set(fr, in, ex.indexVal(in.X.Type(), ex.get(fr, in.X), ex.get(fr, in.Index).(*term.T)))
+		ex.set(fr, in, ex.indexVal(in.X.Type(), ex.get(fr, in.X), ex.toInt64T(ex.get(fr, in.Index).(*term.T), in.Index.Type())))
 	case *ssa.Slice:
 		ex.set(fr, in, ex.sliceOp(fr, in))
 	case *ssa.MakeSlice:
-		ex.set(fr, in, ex.makeSlice(in.Type(), ex.get(fr, in.Len).(*term.T), ex.get(fr, in.Cap).(*term.T)))
+		ex.set(fr, in, ex.makeSlice(in.Type(), ex.toInt64T(ex.get(fr, in.Len).(*term.T), in.Len.Type()), ex.toInt64T(ex.get(fr, in.Cap).(*term.T), in.Cap.Type())))
 	case *ssa.MakeClosure:
 		env := make([]Value, len(in.Bindings))
 		for i, b := range in.Bindings {
@@ -74,7 +74,13 @@ func (ex *Exec) exec(fr *frame, in ssa.Instruction) {
 		}
 		m.M[k] = copyVal(ex.get(fr, in.Value))
 	case *ssa.Lookup:
-		ex.set(fr, in, ex.lookup(in, ex.get(fr, in.X), ex.get(fr, in.Index)))
+		idxv := ex.get(fr, in.Index)
+		if it, ok := idxv.(*term.T); ok {
+			if _, isMap := in.X.Type().Underlying().(*types.Map); !isMap {
+				idxv = ex.toInt64T(it, in.Index.Type())
+			}
+		}
+		ex.set(fr, in, ex.lookup(in, ex.get(fr, in.X), idxv))
 	case *ssa.Defer:
 		c := in.Call
 		var thunk func()
@@ -362,7 +368,18 @@ func (ex *Exec) toInt64(i *term.T) *term.T {
 	if i.W == 64 {
 		return i
 	}
-	return ex.C.Sext(i, 64) // index expressions of narrower signed types; unsigned handled by caller types rarely
+	return ex.C.Sext(i, 64)
+}
+
+// toInt64T widens an index/length operand according to the signedness of its Go type.
+func (ex *Exec) toInt64T(i *term.T, t types.Type) *term.T {
+	if i.W == 64 {
+		return i
+	}
+	if t != nil && !isSigned(t) {
+		return ex.C.Zext(i, 64)
+	}
+	return ex.C.Sext(i, 64)
 }
 
 func (ex *Exec) indexVal(xt types.Type, x Value, idx *term.T) Value {
@@ -388,13 +405,13 @@ func (ex *Exec) sliceOp(fr *frame, in *ssa.Slice) Value {
 	x := ex.get(fr, in.X)
 	var lo, hi, max *term.T
 	if in.Low != nil {
-		lo = ex.toInt64(ex.get(fr, in.Low).(*term.T))
+		lo = ex.toInt64T(ex.get(fr, in.Low).(*term.T), in.Low.Type())
 	}
 	if in.High != nil {
-		hi = ex.toInt64(ex.get(fr, in.High).(*term.T))
+		hi = ex.toInt64T(ex.get(fr, in.High).(*term.T), in.High.Type())
 	}
 	if in.Max != nil {
-		max = ex.toInt64(ex.get(fr, in.Max).(*term.T))
+		max = ex.toInt64T(ex.get(fr, in.Max).(*term.T), in.Max.Type())
 	}
 	zero := ex.constInt(0)
 	switch x := x.(type) {
